@@ -5,6 +5,8 @@ import (
 	"go/ast"
 	"go/token"
 	"go/types"
+	"net/url"
+	"path"
 	"sort"
 	"strings"
 )
@@ -54,6 +56,14 @@ func (c *Ctx) keyProvenance(fd *ast.FuncDecl, e ast.Expr, defs map[types.Object]
 	if depth > 4 {
 		return false, "provenance too deep"
 	}
+	// a constant that already is in canonical form (absolute URL, lower-case scheme and host, clean path, no
+	// fragment): what the normaliser would return for it is the constant itself
+	if k, isConst := c.constString(e); isConst {
+		if u, err := url.Parse(k); err == nil && u.Scheme != "" && u.Scheme == strings.ToLower(u.Scheme) && u.Host == strings.ToLower(u.Host) &&
+			u.Fragment == "" && !strings.HasSuffix(k, "#") && u.RawQuery == "" && u.Path != "" && path.Clean(u.Path) == u.Path {
+			return true, ""
+		}
+	}
 	switch x := e.(type) {
 	case *ast.CallExpr:
 		if c.isSpecFunc(x, "normalizeBase") || c.isSpecFunc(x, "normalizeURI") {
@@ -86,6 +96,30 @@ func (c *Ctx) keyProvenance(fd *ast.FuncDecl, e ast.Expr, defs map[types.Object]
 					}
 					return false, "URL is not that of a normalised reference"
 				}
+			}
+		}
+		// <normalised ref>.M() where M is a method of the package's Ref that prints the receiver's URL with the
+		// fragment cleared (Ref.RemoteURI)
+		if se, ok := unparen(x.Fun).(*ast.SelectorExpr); ok && len(x.Args) == 0 {
+			if m, isM := c.callee(x).(*types.Func); isM && m.Pkg() == c.Types && c.refMethodPrintsURLWithoutFragment(m) {
+				recvExpr := unparen(se.X)
+				norm := false
+				if rc, isCall := recvExpr.(*ast.CallExpr); isCall && c.isSpecFunc(rc, "normalizeRef") {
+					norm = true
+				}
+				if rid, isId := recvExpr.(*ast.Ident); isId {
+					norm = len(defs[c.objOf(rid)]) > 0
+					for _, rd := range defs[c.objOf(rid)] {
+						rc, isC := unparen(rd).(*ast.CallExpr)
+						if !isC || !c.isSpecFunc(rc, "normalizeRef") {
+							norm = false
+						}
+					}
+				}
+				if norm {
+					return true, ""
+				}
+				return false, "key is " + exprString(x) + ", where the reference is not a normalised one"
 			}
 		}
 		// <url>.String() of the URL of a normalised ref whose Fragment was cleared
@@ -139,6 +173,30 @@ func (c *Ctx) keyProvenance(fd *ast.FuncDecl, e ast.Expr, defs map[types.Object]
 					return false, "the fragment is kept in the cache key: the same document is cached (and fetched) once per fragment"
 				}
 				return true, ""
+			}
+		}
+		// a package helper every return of which hands back a canonical key
+		if g, isF := c.callee(x).(*types.Func); isF && g.Pkg() == c.Types && depth < 3 {
+			if gfd := c.decl(g); gfd != nil && gfd.Body != nil && g.Type().(*types.Signature).Results().Len() >= 1 {
+				gdefs := c.localDefs(gfd)
+				n, all := 0, true
+				ast.Inspect(gfd.Body, func(nd ast.Node) bool {
+					if _, isLit := nd.(*ast.FuncLit); isLit {
+						return false
+					}
+					rs, ok := nd.(*ast.ReturnStmt)
+					if !ok || len(rs.Results) == 0 {
+						return true
+					}
+					n++
+					if ok2, _ := c.keyProvenance(gfd, rs.Results[0], gdefs, depth+1); !ok2 {
+						all = false
+					}
+					return true
+				})
+				if n > 0 && all {
+					return true, ""
+				}
 			}
 		}
 		return false, "key is the result of " + exprString(x.Fun) + ", not of the normaliser"
@@ -333,6 +391,23 @@ func (c *Ctx) idScopeKey(rule string) {
 			}
 			return true
 		})
+		// the same statement is part of id-once when that rule is decided on the effect normal form (helpers
+		// inlined): "registered, on every path past the guard, under the very base that is returned"
+		if !same {
+			if fam := c.family(); fam.ok() {
+				saved := len(c.obs)
+				if c.idOnceBySim("id-once-probe", fam) {
+					good := true
+					for _, o := range c.obs[saved:] {
+						if o.Verdict != "discharged" {
+							good = false
+						}
+					}
+					same = good
+				}
+				c.obs = c.obs[:saved]
+			}
+		}
 		c.ob(rule, c.funcName(fd)+":key-is-returned-base", fd.Pos(), same,
 			"the id-scoped schema is cached under a key that is not the location returned as the new base path: refs relative to the id miss it, or it overwrites the entry of the enclosing document")
 	}
@@ -583,6 +658,22 @@ func ruleCanonEntry(c *Ctx) {
 		c.undecided(rule, "options-cloner", token.NoPos, "cannot find the function cloning *ExpandOptions")
 	} else {
 		c.saw(c.funcName(ood))
+		if nb := c.funcObj("normalizeBase"); nb != nil {
+			if f, ok := c.Info.Defs[ood.Name].(*types.Func); ok {
+				if facts, ok := c.clonerFactsBySim(f, nb); ok {
+					// decided on the effect normal form of the cloner
+					c.ob(rule, "options:RelativeBase-normalised", ood.Pos(), facts.normalised == "", facts.normalised)
+					why := facts.fresh
+					if why == "" {
+						why = facts.byValue
+					}
+					c.ob(rule, "options:returns-clone", ood.Pos(), why == "", why)
+					ood = nil
+				}
+			}
+		}
+	}
+	if ood != nil {
 		param := c.paramObj(ood, 0)
 		normalised := false
 		var cloneVar types.Object
@@ -676,9 +767,10 @@ func ruleCanonEntry(c *Ctx) {
 	if fam.ok() {
 		for _, f := range c.pkgFuncs() {
 			sig := f.Type().(*types.Signature)
-			if sig.Recv() != nil || sig.Results().Len() != 1 || !isNamed(sig.Results().At(0).Type(), c.Types, fam.loader.Obj().Name()) {
+			if f != c.loaderFactory(fam) {
 				continue
 			}
+			_ = sig
 			fd := c.decl(f)
 			c.saw(c.funcName(fd))
 			sub := false
@@ -808,4 +900,81 @@ func (c *Ctx) urlCopyWithoutFragment(g *types.Func) (bool, string) {
 		return false, "no return"
 	}
 	return good, why
+}
+
+// refMethodPrintsURLWithoutFragment: m is a nullary method of the package's Ref type with one string result, and
+// every value it returns is "" or the String() of a local copy of the receiver's URL whose Fragment was set to ""
+// before.
+func (c *Ctx) refMethodPrintsURLWithoutFragment(m *types.Func) bool {
+	sig := m.Type().(*types.Signature)
+	if sig.Recv() == nil || !isNamed(derefType(sig.Recv().Type()), c.Types, "Ref") || sig.Params().Len() != 0 || sig.Results().Len() != 1 || !isStringType(sig.Results().At(0).Type()) {
+		return false
+	}
+	fd := c.decl(m)
+	if fd == nil || fd.Body == nil {
+		return false
+	}
+	recv := c.recvObj(fd)
+	defs := c.localDefs(fd)
+	n, all := 0, true
+	ast.Inspect(fd.Body, func(nd ast.Node) bool {
+		if _, isLit := nd.(*ast.FuncLit); isLit {
+			return false
+		}
+		rs, ok := nd.(*ast.ReturnStmt)
+		if !ok || len(rs.Results) != 1 {
+			return true
+		}
+		if k, isConst := c.constString(rs.Results[0]); isConst && k == "" {
+			return true
+		}
+		n++
+		good := false
+		if call, isCall := unparen(rs.Results[0]).(*ast.CallExpr); isCall && len(call.Args) == 0 {
+			if se, isSel := unparen(call.Fun).(*ast.SelectorExpr); isSel && se.Sel.Name == "String" {
+				if id, isId := unparen(se.X).(*ast.Ident); isId {
+					o := c.objOf(id)
+					fromRecv := len(defs[o]) > 0
+					for _, d := range defs[o] {
+						e := unparen(d)
+						if st, isStar := e.(*ast.StarExpr); isStar {
+							e = unparen(st.X)
+						}
+						gc, isC := e.(*ast.CallExpr)
+						if !isC {
+							fromRecv = false
+							continue
+						}
+						gse, isS := unparen(gc.Fun).(*ast.SelectorExpr)
+						if !isS || gse.Sel.Name != "GetURL" {
+							fromRecv = false
+							continue
+						}
+						if rid, isR := unparen(gse.X).(*ast.Ident); !isR || c.objOf(rid) != recv {
+							fromRecv = false
+						}
+					}
+					cleared := false
+					ast.Inspect(fd.Body, func(q ast.Node) bool {
+						as, isAs := q.(*ast.AssignStmt)
+						if !isAs || as.End() > rs.Pos() || len(as.Lhs) != 1 || len(as.Rhs) != 1 {
+							return true
+						}
+						if p, ok := c.apath(as.Lhs[0]); ok && p.Root == o && lastStep(p) == "Fragment" {
+							if s, ok := c.constString(as.Rhs[0]); ok && s == "" {
+								cleared = true
+							}
+						}
+						return true
+					})
+					good = fromRecv && cleared
+				}
+			}
+		}
+		if !good {
+			all = false
+		}
+		return true
+	})
+	return n > 0 && all
 }
